@@ -78,9 +78,17 @@ func init() {
 			}
 			// length = sum of segment distances
 			ls := orb.LineString{a}
+			if c.rng.Intn(6) == 0 { // a line that starts next to the antimeridian and wanders across it
+				ls[0][0] = []float64{179.5, -179.5, 180, -180, 178.2}[c.rng.Intn(5)]
+			}
 			sum, sumh := 0.0, 0.0
 			for j := 0; j < 1+c.rng.Intn(5); j++ {
 				nx := orb.Point{ls[len(ls)-1][0] + (c.rng.Float64()-0.5)*4, math.Max(-89, math.Min(89, ls[len(ls)-1][1]+(c.rng.Float64()-0.5)*4))}
+				if nx[0] > 180 { // longitudes stay in [-180, 180]: the next vertex lies on the other side
+					nx[0] -= 360
+				} else if nx[0] < -180 {
+					nx[0] += 360
+				}
 				sum += geo.Distance(ls[len(ls)-1], nx)
 				sumh += geo.DistanceHaversine(ls[len(ls)-1], nx)
 				ls = append(ls, nx)
